@@ -631,6 +631,22 @@ class Composite(LexicalParent[Node], HasCreator, Node, ABC):
         return self._get_connections_as_strings(self._get_signals_input)
 
     @property
+    def _child_signal_firing_order(
+        self,
+    ) -> list[tuple[tuple[str, str], tuple[str, str]]]:
+        """
+        The signal connections once more, seen from the emitting side: an output signal
+        fires its connections in list order, and that order cannot be read off the
+        input-side lists.
+        """
+        return [
+            ((out.owner.label, out.label), (inp.owner.label, inp.label))
+            for child in self
+            for out in child.signals.output
+            for inp in out.connections
+        ]
+
+    @property
     def _starting_node_labels(self):
         # As a property so it appears in `__dir__` and thus is guaranteed to not
         # conflict with a child node name in the state
@@ -641,6 +657,7 @@ class Composite(LexicalParent[Node], HasCreator, Node, ABC):
         # Store connections as strings
         state["_child_data_connections"] = self._child_data_connections
         state["_child_signal_connections"] = self._child_signal_connections
+        state["_child_signal_firing_order"] = self._child_signal_firing_order
 
         # Also remove the starting node instances
         del state["starting_nodes"]
@@ -652,6 +669,7 @@ class Composite(LexicalParent[Node], HasCreator, Node, ABC):
         # Purge child connection info from the state
         child_data_connections = state.pop("_child_data_connections")
         child_signal_connections = state.pop("_child_signal_connections")
+        firing_order = state.pop("_child_signal_firing_order", None)
         # Restore starting nodes
         state["starting_nodes"] = [
             state[label] for label in state.pop("_starting_node_labels")
@@ -662,6 +680,26 @@ class Composite(LexicalParent[Node], HasCreator, Node, ABC):
         # Nodes don't store connection information, so restore it to them
         self._restore_data_connections_from_strings(child_data_connections)
         self._restore_signal_connections_from_strings(child_signal_connections)
+        if firing_order is not None:
+            self._restore_firing_order(firing_order)
+
+    def _restore_firing_order(
+        self, firing_order: list[tuple[tuple[str, str], tuple[str, str]]]
+    ) -> None:
+        """
+        Reconnecting rebuilds each output signal's list in the order the _inputs_ are
+        visited; put the saved order back.
+        """
+        for child in self:
+            for out in child.signals.output:
+                saved = [
+                    self.children[inp_node].signals.input[inp]
+                    for (out_node, out_label), (inp_node, inp) in firing_order
+                    if (out_node, out_label) == (child.label, out.label)
+                ]
+                out.connections = [c for c in saved if c in out.connections] + [
+                    c for c in out.connections if c not in saved
+                ]
 
     @staticmethod
     def _restore_connections_from_strings(
@@ -683,7 +721,9 @@ class Composite(LexicalParent[Node], HasCreator, Node, ABC):
                 among these nodes in the format ((input node label, input channel label
                 ), (output node label, output channel label)).
         """
-        for (inp_node, inp), (out_node, out) in connections:
+        # `connect` puts the newest connection first, so go through the stored lists
+        # backwards: every input then finds its connections in the order they were saved
+        for (inp_node, inp), (out_node, out) in reversed(connections):
             input_panel_getter(nodes[inp_node])[inp].connect(
                 output_panel_getter(nodes[out_node])[out]
             )
